@@ -177,6 +177,18 @@ def atomic_specs():
     add("Int(5) clone", "Int", lambda: Int()(5), rf.ref_int)
     add("String(1,3)('ab')", "String", lambda: String("a", minlen=1, maxlen=3)("ab"), rf.ref_string(1, 3, ""))
     add("Enum(1,2,3)(2)", "Enum", lambda: Enum(1, 2, 3)(2), rf.ref_enum((1, 2, 3)))
+    # BaseInstance.clone takes allow_none explicitly "in the same way that it's handled in the
+    # initializer", so the derived variant's domain is the one the initializer would give
+    add("Instance(Plain)(allow_none=False)", "Instance.clone", lambda: Instance(Plain)(allow_none=False),
+        rf.ref_instance(Plain, False))
+    add("Instance(Plain,nn)(allow_none=True)", "Instance.clone",
+        lambda: Instance(Plain, allow_none=False)(allow_none=True), rf.ref_instance(Plain, True))
+    add("BaseInstance(Plain)(allow_none=False)", "Instance.clone", lambda: BaseInstance(Plain)(allow_none=False),
+        rf.ref_instance(Plain, False))
+    add("Instance(name)(allow_none=False)", "Instance.clone", lambda: Instance("vf.lattice.Plain")(allow_none=False),
+        rf.ref_instance(Plain, False))
+    add("Instance(Plain,adapt=yes)(allow_none=False)", "Instance.clone",
+        lambda: Instance(Plain, adapt="yes")(allow_none=False), rf.ref_instance(Plain, False))
     # classes given by (module-qualified) NAME are resolved lazily, at the first non-None valid
     # assignment: the class trait is shared by the lattice loop, so values judged after that
     # assignment see the resolved state (direct and nested uses)
